@@ -1,4 +1,5 @@
 CONSTANTS EP = {"e1", "e2"}  Prefixes = {"ollama", "openai"}  Types = {"ollama", "vllm", "auto"}
+CONSTANT Focus = FALSE
 CONSTANT AllowedChoices = {{}, {"ollama"}, {"ollama", "vllm"}}
 SPECIFICATION Spec
 INVARIANT StaysInside
